@@ -408,7 +408,17 @@ impl<'a> Parser<'a> {
             "directive" => Ok(TypeSystemDefinition::DirectiveDefinition(
                 self.parse_directive_definition(description, hack_source)?,
             )),
-            "extend" => self.parse_type_system_extension(),
+            "extend" => {
+                // A type system extension has no description.
+                if let Some(description) = description {
+                    self.record_error(Diagnostic::error(
+                        "A type system extension cannot have a description",
+                        Location::new(self.source_location, description.token.span),
+                    ));
+                    return Err(());
+                }
+                self.parse_type_system_extension()
+            }
             token_str => {
                 let error = Diagnostic::error(
                     format!("Unexpected token: `{}`", token_str),
